@@ -17,7 +17,7 @@ def Tx.melTotalFits (tx : Tx) : Bool :=
 /-- weight of one covenant given as bytes: `covenant_weight_from_bytes` -/
 def covenantWeightFromBytes (b : Bytes) : Nat :=
   match decodeAll b with
-  | some ops => weight ops
+  | some ops => weightDP ops
   | none => 0
 
 /-- the covenant weights add up within a u128 (guard added by the `fix:` for F19: `Transaction::weight` sums them with a
